@@ -4,7 +4,7 @@ CFG = {'level': 'exploration',
  'design_ref': '5.3 C03',
  'technique': 'runtime monitoring: differential oracle (independent RFC 6962 prover + RFC 9162 verifier) over every (t,n) and a labelled mutation '
               'family, read-bound monitor on the HashReader',
- 'level_text': 'All (t,n) up to T=70 (quick) / 420 plus trees around 2^10..2^16 (thorough): proofs must be byte-equal to the RFC 6962 construction '
+ 'level_text': 'All (t,n) up to T=100 (quick) / 800 plus trees around 2^10..2^16 (thorough): proofs must be byte-equal to the RFC 6962 construction '
                'and CheckRecord/CheckTree accept/reject must equal the RFC 9162 algorithms on every mutated tuple (proof hashes, length, order, '
                'index, sizes, leaf, both roots, out-of-range). Held-on-observed.',
  'level_note': 'Trusts crypto/sha256 and the literal transcription of RFC 6962 §2.1 / RFC 9162 §2.1.3.2, §2.1.4.2 in ref/refmerkle.',
